@@ -48,6 +48,28 @@ CHECKS.update({
     ),
 })
 
+CHECKS.update({
+    "C01": dict(
+        text="Four exhaustive spaces - a structured literal alphabet (ints of all magnitudes/signs, floats m*10^e for e in -30..30, +-0.0, "
+             "denormal min, float max) in every literal position; the 27 slice shapes x alias chains x register/usepulses variants; the "
+             "tree-exhaustive program pool; <= k-deviation neighbourhoods - each built from text and through build(); generate -> parse must "
+             "give an equal circuit (both directions of ==), the same symbolic form and denotation as the reference model, and byte-identical "
+             "text on the second generation.",
+        note="finite numbers only; fixed identifier vocabulary; numbers compared by value; model = mc/ref/meaning.py, IR read through public attributes",
+        technique="bounded-exhaustive enumeration of literals/headers/program trees; generator+parser round trip vs reference model",
+        ref="5/C01",
+    ),
+    "C05": dict(
+        text="(program, override) pairs: pool programs x ALL override dictionaries over the declared constants (ints {0,1,2,3}, floats "
+             "{0.25,-1.5,2}) and neighbourhood programs x an override menu; the real fill_in_let result must contain no reachable Constant "
+             "(following the object references the IR holds), denote exactly what the reference interpreter computes in env(override) by the "
+             "object route and by generate->parse, keep macros/native gates/usepulses/constants, and agree with parse(expand_let=True, override_dict).",
+        note="integer-position constants overridden by ints only; pairs the model deems invalid are C14's; bounds: pool <= 3 (4) nodes, 2 deviations",
+        technique="bounded-exhaustive enumeration of programs x override dictionaries; real pass vs reference interpreter in the chosen environment",
+        ref="5/C05",
+    ),
+})
+
 NOT_YET = {}
 
 
